@@ -38,6 +38,8 @@
   * `C07_slur_update_partial`, `C07_psg_update_partial`: slurred FM notes and PSG melody channels,
     per update, on any pass;
   * `C07_export_extent_noloop_partial`: where the log of a track without loop point ends.
+  * `C07_loop_marker_partial`: with one channel track the loop marker is written in exactly the updates in
+    which a `SEGNO` is delivered and the channel plays on (`loop_trigger` instance of the chain).
   What is NOT proved here and rests on the schedule oracle (Spec/Schedule run on every real
   export by the check) and on the byte-exact correspondence: the loop-count lemma of
   `export_extent` (looping songs), several channels in one statement, slurs / PSG composed over
@@ -45,7 +47,8 @@
   Known findings (known_findings.txt): `short-note` (at more than one tick per update the key-on
   of a note that ends inside the update it starts in is written after its key-off), `segno-in-sub`
   and `segno-in-loop` (a loop point below the top level of the channel's track: the player keeps
-  only an index, the second pass resumes elsewhere — excluded by `SegTop`).
+  only an index, the second pass resumes elsewhere — excluded by `SegTop`), `short-loop` (a loop section
+  shorter than the rest of the update that reads the loop point: no loop marker, the export stops).
 -/
 import Ctrmml.Proofs.MdDriver
 import Ctrmml.Proofs.TickStream
@@ -57,6 +60,7 @@ import Ctrmml.Proofs.MdTable
 import Ctrmml.Proofs.MdSlur
 import Ctrmml.Proofs.MdExtent
 import Ctrmml.Proofs.MdSlurSched
+import Ctrmml.Proofs.MdTrig
 import Ctrmml.Spec.Schedule
 namespace Ctrmml.C07
 open Ctrmml Ctrmml.MdDriver Tables
@@ -902,6 +906,90 @@ theorem C07_schedule_psg_partial (d : Data) (song : Song) (tags : Vgm.Tags) (ops
   exact ⟨K, L, h1, h2, h3, fun k hk => single_psg d song root id hid6 hid9 hsingle _ 49999 (TickStream.endOK_root song root) hB
     (TickStream.plainHooks_of song root hplain) _ hrel k (fun j hj => h6 j (by omega))⟩
 
+/-! ### the loop marker -/
+/-- a `SEGNO` is among the events the list machine delivers at the ticks `T … T'−1` (computable form of
+`DeliveredIn`, see `segnoIn_iff`) -/
+def segnoIn (m0 : TickStream.LX) (T T' : Nat) : Bool :=
+  (TickStream.lxRun (T' - T) (TickStream.lxAfter T m0)).flatten.any fun e => e.type == ev_SEGNO
+
+theorem segnoIn_iff (m0 : TickStream.LX) (T T' : Nat) (h : T ≤ T') :
+    segnoIn m0 T T' = true ↔ DeliveredIn m0 T T' (fun e => e.type = ev_SEGNO) := by
+  obtain ⟨n, rfl⟩ : ∃ n, T' = T + n := ⟨T' - T, by omega⟩
+  rw [deliveredIn_iff]
+  unfold segnoIn
+  rw [Nat.add_sub_cancel_left]
+  simp only [List.any_eq_true, beq_iff_eq]
+
+/-- **The loop marker is written once per loop point, in the update that reads it** (partial: one
+channel track of any kind).  Let `N_k` be the tick table of `C07_tempo_table_partial`.  In a successful
+export, for every update `k = 0 … K` of the log: `updOps k` (`C07_log_by_updates`) ends with the loop
+marker `set_loop` iff a `SEGNO` is delivered by the looping list machine at a tick `τ` with
+`N_k ≤ τ < N_{k+1}` and the channel is still playing after the update — and in no other update:
+`loop_trigger` is set by `write_event` at a `SEGNO` (and at the `END` that stops the channel) and at
+no other event (`trigChain`, the `loop_trigger` instance of the chain of Proofs/MdChain), the marker
+test clears it in the same `play_step`, and between the loop point and the first jump back
+`get_loop_count()` is 0 (`ZeroInv`).  Since the list machine delivers an item's event exactly once
+on the first pass (`C07_list_machine_times`) and on later passes only the items AFTER the last loop
+point, a track with one loop point gets exactly one marker, at sample `735·k(τ_L)`, `τ_L` the start
+tick of the `SEGNO`; the loop section of a track that ends at its loop point (`c L`) gets none.
+Extra hypotheses w.r.t. the full statement: one channel track, `SegTop`; the hook is never shown an
+`END`, and a `SEGNO` only when one was read (`ItemOK`, true of every `perf` of a validated song but
+not derived here); and, for the updates up to `k`, no update that delivers a `SEGNO` also jumps back
+to it (`lastJump = -1` after the update: the loop section is longer than the rest of the update that
+reads the loop point — with a loop section of one tick at two ticks per update the real code writes
+NO marker and stops after that update, example below). -/
+theorem C07_loop_marker_partial (d : Data) (song : Song) (tags : Vgm.Tags) (ops : List Vgm.Op)
+    (id : Nat) (root : List Event)
+    (hexp : exportOps d song tags = .ok ops) (hsingle : SingleTrack song id root)
+    (hs : Refine.SongNoEnd song) (hr : Tree.NoEnd root) (hplain : TickStream.PlainCode song root)
+    (items : List Expand.Item) (hperf : Expand.perf song root = .ok items)
+    (hfuel : ∀ k outs, Refine.stepsCore song root k ⟨.root, 0, []⟩ = .ok (⟨.root, root.length, []⟩, outs) →
+      2 * k + 2 ≤ PlayerCh.settleFuel)
+    (hseg : ∀ k, TickStream.SegTop song root k ⟨.root, 0, []⟩)
+    (hev : ∀ i ∈ items, ItemOK i) :
+    ∃ K L, ops = ctorPokes ++ (playSong d song).2 ++ L ++ [Vgm.Op.stop, Vgm.Op.writeTag tags] ∧
+      stamps 0 L = schedLog d song (playSong d song).1 (K + 1) ∧ delaySum L = 735 * K ∧
+      ∀ k, k ≤ K →
+        (∀ j, j ≤ k → segnoIn (TickStream.lxInit items) (tickTable (TickStream.lxInit items) j).1
+            (tickTable (TickStream.lxInit items) (j + 1)).1 = true →
+          (TickStream.lxAfter (tickTable (TickStream.lxInit items) (j + 1)).1 (TickStream.lxInit items)).lastJump = -1) →
+        updOps d song (playSong d song).1 k = (updWrs d song (playSong d song).1 k).flatMap Wr.toOps ++
+          (if (segnoIn (TickStream.lxInit items) (tickTable (TickStream.lxInit items) k).1
+                (tickTable (TickStream.lxInit items) (k + 1)).1 &&
+              (TickStream.lxAfter (tickTable (TickStream.lxInit items) (k + 1)).1 (TickStream.lxInit items)).enabled) = true
+            then [Vgm.Op.setLoop] else []) := by
+  obtain ⟨K, L, h1, h2, h3, _, _, h6⟩ := exportOps_log d song tags ops hexp
+  have hB : 2 * 49999 + 2 ≤ PlayerCh.settleFuel := by unfold PlayerCh.settleFuel; decide
+  have hrel := TickStream.relX_init song root hs hr items hperf 49999
+    (fun k outs h => by have := hfuel k outs h; unfold PlayerCh.settleFuel at this; omega) hseg
+  have hpl := TickStream.plainHooks_of song root hplain
+  refine ⟨K, L, h1, h2, h3, fun k hk hl => ?_⟩
+  have hN : ∀ j, j ≤ K + 1 → (tickTable (TickStream.lxInit items) j).1 = (updRun d song j (playSong d song).1).ticks := by
+    intro j hj
+    rw [← single_table d song root id hsingle _ 49999 (TickStream.endOK_root song root) hB hpl _ hrel j
+      (fun i hi => h6 i (by omega))]
+  have hmono : ∀ j, (updRun d song j (playSong d song).1).ticks ≤ (updRun d song (j + 1) (playSong d song).1).ticks := by
+    intro j; rw [(updRun_ticks d song _ j).1]; omega
+  have hE : EvOK (TickStream.lxInit items) := ⟨hev, by intro L hL; cases hL⟩
+  have hm := single_marker d song root id hsingle _ 49999 (TickStream.endOK_root song root) hB hpl _ hE hrel k
+    (fun j hj => h6 j (by omega))
+    (fun j hj hd => by
+      have := hl j hj
+      rw [hN j (by omega), hN (j + 1) (by omega)] at this
+      exact this ((segnoIn_iff _ _ _ (hmono j)).mpr hd))
+  rw [updOps_eq, hN k (by omega), hN (k + 1) (by omega)]
+  congr 1
+  by_cases hc : DeliveredIn (TickStream.lxInit items) (updRun d song k (playSong d song).1).ticks
+      (updRun d song (k + 1) (playSong d song).1).ticks (fun e => e.type = ev_SEGNO) ∧
+      (TickStream.lxAfter (updRun d song (k + 1) (playSong d song).1).ticks (TickStream.lxInit items)).enabled = true
+  · rw [hm.2.1 hc, if_pos]
+    rw [Bool.and_eq_true]
+    exact ⟨(segnoIn_iff _ _ _ (hmono k)).mpr hc.1, hc.2⟩
+  · rw [hm.2.2 hc, if_neg]
+    rw [Bool.and_eq_true]
+    exact fun h => hc ⟨(segnoIn_iff _ _ _ (hmono k)).mp h.1, h.2⟩
+
+
 /-! ### non-vacuity of the whole-log theorems -/
 /-- FM channel A: `note 40 (on 2, off 1)  L  note 42 (on 2, off 2)` -/
 def exLoopRoot : List Event := [⟨ev_NOTE, 40, 2, 1⟩, ⟨ev_SEGNO, 0, 0, 0⟩, ⟨ev_NOTE, 42, 2, 2⟩]
@@ -991,6 +1079,44 @@ example :
     (fun k outs h => by have := hfuel k outs h; omega)
     (TickStream.segTop_one_segno exLoopSong exLoopRoot hall.1 [⟨ev_NOTE, 40, 2, 1⟩] [⟨ev_NOTE, 42, 2, 2⟩] ⟨ev_SEGNO, 0, 0, 0⟩ rfl
       hall.2 (by decide) [Expand.item ⟨ev_NOTE, 40, 2, 1⟩] [Expand.item ⟨ev_NOTE, 42, 2, 2⟩] rfl rfl (by decide) (by decide))
+
+/-- the extra hypotheses of `C07_loop_marker_partial` hold for `exLoopSong` (the others are those of
+`C07_schedule_fm_partial`, shown above): every item is `ItemOK`; `N_k = k` for `k = 0 … 8`; no update up to
+the last one (`K = 7`) that delivers a `SEGNO` jumps back; and the right-hand side of the theorem puts the
+marker in update 3 (the `SEGNO` stands at tick 3) and in no other — as the log does (example above). -/
+example :
+    (∀ i ∈ exLoopItems, ItemOK i) ∧
+    ((List.range 9).map fun k => (tickTable (TickStream.lxInit exLoopItems) k).1) = [0, 1, 2, 3, 4, 5, 6, 7, 8] ∧
+    (∀ j, j ≤ 7 → segnoIn (TickStream.lxInit exLoopItems) (tickTable (TickStream.lxInit exLoopItems) j).1
+        (tickTable (TickStream.lxInit exLoopItems) (j + 1)).1 = true →
+      (TickStream.lxAfter (tickTable (TickStream.lxInit exLoopItems) (j + 1)).1 (TickStream.lxInit exLoopItems)).lastJump = -1) ∧
+    ((List.range 8).map fun k => (segnoIn (TickStream.lxInit exLoopItems) (tickTable (TickStream.lxInit exLoopItems) k).1
+        (tickTable (TickStream.lxInit exLoopItems) (k + 1)).1 &&
+      (TickStream.lxAfter (tickTable (TickStream.lxInit exLoopItems) (k + 1)).1 (TickStream.lxInit exLoopItems)).enabled)) =
+      [false, false, false, true, false, false, false, false] := by
+  refine ⟨by decide, by decide, ?_, by decide⟩
+  have h : ∀ j, j < 8 → (segnoIn (TickStream.lxInit exLoopItems) (tickTable (TickStream.lxInit exLoopItems) j).1
+        (tickTable (TickStream.lxInit exLoopItems) (j + 1)).1 = true →
+      (TickStream.lxAfter (tickTable (TickStream.lxInit exLoopItems) (j + 1)).1 (TickStream.lxInit exLoopItems)).lastJump = -1) := by
+    decide
+  exact fun j hj => h j (by omega)
+
+/-- the hypothesis "no update that delivers a `SEGNO` jumps back to it" cannot be dropped: FM channel A,
+`T255 r(1 tick) L c(1 tick)` — update 1 plays ticks 1 and 2, reads the loop point and the note at tick 1, jumps
+back at tick 2 and reads the note again, which is the reset position: after the update `get_loop_count()` is 1,
+no loop marker is written (in any update) and the export stops there, 735 samples long — a looping song
+exported without loop point.  Same on the real code (corpus of checks/c07.py). -/
+example :
+    let song : Song := { tracks := [(0, [⟨ev_TEMPO, 255, 0, 0⟩, ⟨ev_REST, 0, 0, 1⟩, ⟨ev_SEGNO, 0, 0, 0⟩, ⟨ev_NOTE, 40, 1, 0⟩])] }
+    let items : List Expand.Item := ([⟨ev_TEMPO, 255, 0, 0⟩, ⟨ev_REST, 0, 0, 1⟩, ⟨ev_SEGNO, 0, 0, 0⟩, ⟨ev_NOTE, 40, 1, 0⟩] : List Event).map Expand.item
+    ((List.range 2).map fun k => (updMark { ins := [] } song (playSong { ins := [] } song).1 k).length) = [0, 0] ∧
+    (match exportOps { ins := [] } song exNoTags with
+      | .ok ops => delaySum ops
+      | .error _ => 0) = 735 * 1 ∧
+    segnoIn (TickStream.lxInit items) (tickTable (TickStream.lxInit items) 1).1 (tickTable (TickStream.lxInit items) 2).1 = true ∧
+    (TickStream.lxAfter (tickTable (TickStream.lxInit items) 2).1 (TickStream.lxInit items)).lastJump = 2 ∧
+    (TickStream.lxAfter (tickTable (TickStream.lxInit items) 2).1 (TickStream.lxInit items)).enabled = true := by
+  decide +kernel
 
 /-- a slur chain on FM channel A, `c4(2) & d4(2) & e4(2) r(1)` at one tick per update: key-off and key-on
 for the first note only, NO key write for the two slurred notes (updates 2 and 4; their frequency words are
